@@ -5,7 +5,8 @@
 import SfProofs.RdwrInv
 namespace Sf
 
-theorem hdrLenOf_congr_rw (h h' : H) (h0 : h'.container = h.container) (h1 : h'.fmtWord = h.fmtWord) (h2 : h'.peak = h.peak)
+theorem hdrLenOf_congr_rw (h h' : H) (h0 : h'.container = h.container) (h1 : h'.fmtWord = h.fmtWord)
+    (h2 : h'.peak.map List.length = h.peak.map List.length)
     (h3 : h'.peakAtStart = h.peakAtStart) : hdrLenOf h' = hdrLenOf h := by
   unfold hdrLenOf wavHdrLen
   rw [h0, h1, h2, h3]
@@ -14,16 +15,31 @@ theorem hdrLenOf_congr_rw (h h' : H) (h0 : h'.container = h.container) (h1 : h'.
 theorem RwView.rebuild {h : H} {s : Store} {R W F : Nat} {hdr D : List Byte} (v : RwView h s R W F hdr D)
     (h' : H) (s' : Store) (R' W' F' : Nat) (hdr' D' : List Byte)
     (c1 : h'.mode = h.mode) (c2 : h'.ch = h.ch) (c3 : h'.enc = h.enc) (c4 : h'.dataoffset = h.dataoffset)
-    (c5 : h'.peak = h.peak) (c6 : h'.dataend = 0) (c7 : h'.container = h.container) (c8 : h'.fmtWord = h.fmtWord)
+    (c5 : h'.peak.map List.length = h.peak.map List.length) (c6 : h'.container ≠ .wav → h'.dataend = 0) (c7 : h'.container = h.container)
+    (c8 : h'.fmtWord = h.fmtWord)
     (c9 : h'.peakAtStart = h.peakAtStart)
     (hr : h'.rpos = R') (hw : h'.wpos = W') (hf : h'.frames = F')
-    (hb : s'.bytes = hdr' ++ D') (hl : hdr'.length = hdr.length) (hd : D'.length = F' * h.bw)
+    (hb : ∃ t, s'.bytes = hdr' ++ (D' ++ zeros t) ∧ TailOk h t) (hl : hdr'.length = hdr.length)
+    (hd : D'.length = F' * h.bw)
     (hp : hdr.length ≤ s'.pos) (sw : h'.lastOp = .w → s'.pos = hdr.length + W' * h.bw)
     (sr : h'.lastOp = .r → R' < F' → s'.pos = hdr.length + R' * h.bw) : RwView h' s' R' W' F' hdr' D' := by
   have e : hdrLenOf h' = hdrLenOf h := hdrLenOf_congr_rw h h' c7 c8 c5 c9
   have eb : h'.bw = h.bw := by unfold H.bw; rw [c2, c3]
   have hl0 := v.hlen
-  exact ⟨c1.trans v.mode, c2 ▸ v.ch_pos, c3 ▸ v.nb_pos, hr, hw, hf, by rw [c4, e]; exact v.doff, c5.trans v.peak, c6, hb,
+  have hb' : ∃ t, s'.bytes = hdr' ++ (D' ++ zeros t) ∧ TailOk h' t := by
+    obtain ⟨t, e1, e2⟩ := hb
+    exact ⟨t, e1, by unfold TailOk at e2 ⊢; rw [c7]; exact e2⟩
+  have hpk' : PeakOk h' := by
+    intro ps' hp'
+    rw [hp'] at c5
+    cases hp : h.peak with
+    | none => rw [hp] at c5; cases c5
+    | some ps =>
+      rw [hp] at c5
+      obtain ⟨a, b⟩ := v.peak ps hp
+      have : ps'.length = ps.length := by simpa using c5
+      exact ⟨by rw [this, a, c2], by rw [c9]; exact b⟩
+  exact ⟨c1.trans v.mode, c2 ▸ v.ch_pos, c3 ▸ v.nb_pos, hr, hw, hf, by rw [c4, e]; exact v.doff, hpk', c6, hb',
     by rw [e, hl, hl0], by rw [eb]; exact hd, by rw [e, ← hl0]; exact hp, by rw [e, eb, ← hl0]; exact sw,
     by rw [e, eb, ← hl0]; exact sr⟩
 
@@ -143,7 +159,8 @@ theorem RwView.truncate_refines {h : H} {s : Store} {R W F : Nat} {hdr D : List 
     absOf (stepTruncate h s (k : Int)).1 (stepTruncate h s (k : Int)).2.1 = (absOf h s).truncate (zeroFrame h.bw) k := by
   rw [stepTruncate_ok h s k (by rw [v.mode]; decide) (by omega), if_pos hc, v.defaultSeek k]
   have hby : truncBytes s.bytes (hdr.length + k * h.bw) = hdr ++ truncBytes D (k * h.bw) := by
-    rw [v.bytes, truncBytes_append]
+    obtain ⟨t, hb, _⟩ := v.bytes
+    rw [hb, truncBytes_append, truncBytes_zeros_tail]
   have vt : RwView ({ seekMoveH h 0 (k : Int) with frames := (k : Int) })
       { bytes := truncBytes s.bytes (hdr.length + k * h.bw), pos := hdr.length + k * h.bw } k k k hdr
       (truncBytes D (k * h.bw)) :=
@@ -151,7 +168,8 @@ theorem RwView.truncate_refines {h : H} {s : Store} {R W F : Nat} {hdr D : List 
       have e := seekMoveH_rw h v.mode .both (k : Int)
       simp only [ptrBits] at e
       rw [e]
-      exact v.rebuild _ _ k k k hdr _ rfl rfl rfl rfl rfl v.dataend rfl rfl rfl rfl rfl rfl hby rfl
+      exact v.rebuild _ _ k k k hdr _ rfl rfl rfl rfl rfl v.dataend rfl rfl rfl rfl rfl rfl
+        ⟨0, by show truncBytes s.bytes _ = _; rw [hby]; simp [zeros], Or.inl rfl⟩ rfl
         (truncBytes_length _ _) (by simp) (fun hc => by simp at hc) (fun _ _ => rfl)
   refine ⟨rfl, rfl, ⟨k, k, k, hdr, _, vt⟩, ?_⟩
   rw [vt.abs, v.abs]
@@ -181,16 +199,39 @@ theorem RwView.readPos {h : H} {s : Store} {R W F : Nat} {hdr D : List Byte} (v 
     rw [v.rpos]
     exact congrArg Store.pos this
 
+/-- number of bytes behind the audio data (0, or 1: the pad byte) -/
+def tailLen (h : H) (s : Store) : Nat := s.bytes.length - (h.dataoffset.toNat + h.frames.toNat * h.bw)
+
+theorem RwView.tailLen_eq {h : H} {s : Store} {R W F : Nat} {hdr D : List Byte} (v : RwView h s R W F hdr D) (t : Nat)
+    (hb : s.bytes = hdr ++ (D ++ zeros t)) : tailLen h s = t := by
+  unfold tailLen
+  rw [hb, List.length_append, List.length_append, zeros_length, v.doff, v.frames, Int.toNat_natCast, Int.toNat_natCast,
+    v.hlen, v.dlen]
+  omega
+
+/-- pad-byte samples a read of `k` frames that delivers `d` frames runs into: non-zero only when the request goes past
+    the end of a file of 1-byte samples whose odd-length data is followed by the pad byte -/
+def tailItems (h : H) (s : Store) (k d : Nat) : Nat := min ((k - d) * h.bw) (tailLen h s) / h.enc.nbytes
+
+/-- the value the undelivered part of the requested region holds after a read that started inside the data: untouched
+    (the harness pattern), or zero when the codec read ran into the pad byte (the wrapper then zero-fills) -/
+def readFill (h : H) (s : Store) (ty : Ty) (k d : Nat) : Int := if tailItems h s k d = 0 then pattern ty else 0
+
+theorem decodeAll_short (e : Enc) (c : Conv) (ty : Ty) (bs : List Byte) (hs : bs.length < e.nbytes) : e.decodeAll c ty bs = [] := by
+  unfold Enc.decodeAll; rw [groups_short _ _ hs]; rfl
+
 theorem RwView.read_main {h : H} {s : Store} {R W F : Nat} {hdr D : List Byte} (v : RwView h s R W F hdr D)
     (ty : Ty) (fc : Bool) (k : Nat) (hk : 0 < k) (hlt : R < F) :
     stepRead h s ty fc (callCount h fc k) =
       ({ h with error := 0, rpos := ((R + min k (F - R) : Nat) : Int), lastOp := .r },
-       { bytes := s.bytes, pos := hdr.length + (R + min k (F - R)) * h.bw },
+       { bytes := s.bytes, pos := hdr.length + (R + min k (F - R)) * h.bw + min ((k - min k (F - R)) * h.bw) (tailLen h s) },
        { ret := callCount h fc (min k (F - R)), err := 0,
          data := h.enc.decodeAll h.conv ty ((D.drop (R * h.bw)).take (k * h.bw)) ++
-                 List.replicate ((k - min k (F - R)) * h.ch) (pattern ty), hasData := true }) := by
+                 List.replicate ((k - min k (F - R)) * h.ch) (readFill h s ty k (min k (F - R))), hasData := true }) := by
   have hch := v.ch_pos
   have hnb := v.nb_pos
+  obtain ⟨t, hb, ht⟩ := v.bytes
+  have htl := v.tailLen_eq t hb
   have hn : 0 < callCount h fc k := by
     unfold callCount; cases fc
     · simp only [Bool.false_eq_true, if_false]; exact Int.ofNat_lt.mpr (Nat.mul_pos hk hch)
@@ -201,44 +242,82 @@ theorem RwView.read_main {h : H} {s : Store} {R W F : Nat} {hdr D : List Byte} (
     · left; rfl
   rw [stepRead_main h s ty fc _ hn (by rw [v.mode]; decide) ha (by rw [v.rpos, v.frames]; omega)]
   simp only [reqLen_callCount]
-  have hgot : readGot h s ((k * h.ch : Nat) : Int) = (D.drop (R * h.bw)).take (k * h.bw) := by
-    unfold readGot
-    rw [v.readPos hlt, v.bytes, Int.toNat_natCast, ← List.drop_drop, List.drop_left' rfl]
-    congr 1
-    unfold H.bw H.nb; rw [Nat.mul_assoc, Nat.mul_comm h.ch]
   generalize hd : min k (F - R) = d
+  have hdle : d ≤ F - R := by rw [← hd]; exact Nat.min_le_right _ _
+  have hdk : d ≤ k := by rw [← hd]; exact Nat.min_le_left _ _
+  unfold readFill tailItems
+  rw [htl]
+  generalize he : min ((k - d) * h.bw) t = e
+  have hbwe : h.bw = h.enc.nbytes * h.ch := rfl
+  -- the bytes the codec gets: the data part, then `e` bytes of the tail
   have hgl : ((D.drop (R * h.bw)).take (k * h.bw)).length = d * h.bw := by
     rw [List.length_take, List.length_drop, v.dlen, ← Nat.sub_mul, ← hd]
     rcases Nat.le_total k (F - R) with hle | hle
     · rw [Nat.min_eq_left hle, Nat.min_eq_left (Nat.mul_le_mul_right _ hle)]
     · rw [Nat.min_eq_right hle, Nat.min_eq_right (Nat.mul_le_mul_right _ hle)]
-  have hcnt : ((((D.drop (R * h.bw)).take (k * h.bw)).length : Nat) : Int) / (h.nb : Int) = ((d * h.ch : Nat) : Int) := by
-    rw [hgl]
-    have : d * h.bw = d * h.ch * h.enc.nbytes := by unfold H.bw; rw [Nat.mul_assoc, Nat.mul_comm h.ch]
-    rw [this]; unfold H.nb
-    rw [← Int.natCast_ediv, Nat.mul_div_cancel _ hnb]
-  rw [hgot, hcnt]
-  have hdle : d ≤ F - R := by rw [← hd]; exact Nat.min_le_right _ _
-  have hdk : d ≤ k := by rw [← hd]; exact Nat.min_le_left _ _
-  have hcond : ((d * h.ch : Nat) : Int) ≤ (h.frames - h.rpos) * (h.ch : Int) := by
-    rw [v.frames, v.rpos]
-    have : ((d * h.ch : Nat) : Int) = (d : Int) * (h.ch : Int) := by push_cast; rfl
-    rw [this]
-    exact Int.mul_le_mul_of_nonneg_right (by omega) (by omega)
+  have hgot : readGot h s ((k * h.ch : Nat) : Int) = (D.drop (R * h.bw)).take (k * h.bw) ++ zeros e := by
+    unfold readGot
+    have hkb : k * h.ch * h.nb = k * h.bw := by unfold H.bw H.nb; rw [Nat.mul_assoc, Nat.mul_comm h.ch]
+    have hRle : R * h.bw ≤ D.length := by rw [v.dlen]; exact Nat.mul_le_mul_right _ (by omega)
+    rw [v.readPos hlt, hb, Int.toNat_natCast, ← List.drop_drop, List.drop_left' rfl, hkb, List.drop_append,
+      Nat.sub_eq_zero_of_le hRle, List.drop_zero, List.take_append, take_zeros, List.length_drop, v.dlen, ← Nat.sub_mul]
+    congr 2
+    rw [← he, ← hd]
+    rcases Nat.le_total k (F - R) with hle | hle
+    · rw [Nat.min_eq_left hle, Nat.sub_self, Nat.zero_mul, Nat.sub_eq_zero_of_le (Nat.mul_le_mul_right _ hle)]
+    · rw [Nat.min_eq_right hle]; simp only [Nat.sub_mul]
+  have hdb : d * h.bw = d * h.ch * h.enc.nbytes := by unfold H.bw; rw [Nat.mul_assoc, Nat.mul_comm h.ch]
+  have hvD : (h.enc.decodeAll h.conv ty ((D.drop (R * h.bw)).take (k * h.bw))).length = d * h.ch := by
+    rw [Enc.decodeAll_length _ _ _ hnb, hgl, hdb, Nat.mul_div_cancel _ hnb]
+  have hvals : h.enc.decodeAll h.conv ty ((D.drop (R * h.bw)).take (k * h.bw) ++ zeros e) =
+      h.enc.decodeAll h.conv ty ((D.drop (R * h.bw)).take (k * h.bw)) ++ h.enc.decodeAll h.conv ty (zeros e) :=
+    Enc.decodeAll_append _ _ _ hnb (d * h.ch) _ _ (by rw [hgl, hdb])
+  have hcnt : ((((D.drop (R * h.bw)).take (k * h.bw) ++ zeros e).length : Nat) : Int) / (h.nb : Int) =
+      ((d * h.ch + e / h.enc.nbytes : Nat) : Int) := by
+    rw [List.length_append, hgl, zeros_length, hdb]; unfold H.nb
+    rw [← Int.natCast_ediv, Nat.add_comm, Nat.add_mul_div_right _ _ hnb, Nat.add_comm]
+  rw [hgot, hcnt, hvals, v.readPos hlt, List.length_append, hgl, zeros_length, v.rpos, v.frames]
+  have e3 : hdr.length + R * h.bw + (d * h.bw + e) = hdr.length + (R + d) * h.bw + e := by rw [Nat.add_mul]; omega
+  have e2 : (if fc = true then (d : Int) else ((d * h.ch : Nat) : Int)) = callCount h fc d := rfl
   have hdiv : ((d * h.ch : Nat) : Int) / (h.ch : Int) = (d : Int) := by
     rw [← Int.natCast_ediv, Nat.mul_div_cancel _ hch]
-  have hvl : (h.enc.decodeAll h.conv ty ((D.drop (R * h.bw)).take (k * h.bw))).length = d * h.ch := by
-    rw [Enc.decodeAll_length _ _ _ hnb, hgl]
-    have : d * h.bw = d * h.ch * h.enc.nbytes := by unfold H.bw; rw [Nat.mul_assoc, Nat.mul_comm h.ch]
-    rw [this, Nat.mul_div_cancel _ hnb]
-  rw [if_pos hcond, hdiv, v.readPos hlt, hgl, Int.toNat_natCast, List.take_of_length_le (by rw [hvl]; exact Nat.le_refl _),
-    v.rpos]
   have e1 : (((k * h.ch : Nat) : Int) - ((d * h.ch : Nat) : Int)).toNat = (k - d) * h.ch := by
     rw [Nat.sub_mul]; omega
-  have e2 : (if fc = true then (d : Int) else ((d * h.ch : Nat) : Int)) = callCount h fc d := rfl
-  have e3 : hdr.length + R * h.bw + d * h.bw = hdr.length + (R + d) * h.bw := by rw [Nat.add_mul]; omega
-  rw [e1, e2, e3]
-  rfl
+  by_cases hx : e / h.enc.nbytes = 0
+  · -- nothing of the tail makes a sample: the codec delivered `d` whole frames
+    have hz : h.enc.decodeAll h.conv ty (zeros e) = [] :=
+      decodeAll_short _ _ _ _ (by rw [zeros_length]; exact (Nat.div_eq_zero_iff.mp hx).resolve_left (by omega))
+    have hcond : ((d * h.ch + e / h.enc.nbytes : Nat) : Int) ≤ ((F : Int) - (R : Int)) * (h.ch : Int) := by
+      rw [hx, Nat.add_zero]
+      have : ((d * h.ch : Nat) : Int) = (d : Int) * (h.ch : Int) := by push_cast; rfl
+      rw [this]
+      exact Int.mul_le_mul_of_nonneg_right (by omega) (by omega)
+    rw [if_pos hcond, hx, Nat.add_zero, hdiv, hz, List.append_nil, Int.toNat_natCast,
+      List.take_of_length_le (by rw [hvD]; exact Nat.le_refl _), e1, e2, e3, if_pos rfl, Int.natCast_add]
+  · -- the codec read the pad byte as a sample: more than the frame count allows, clamped, rest zero-filled
+    have hepos : 0 < e := by
+      rcases Nat.eq_zero_or_pos e with h0 | h0
+      · rw [h0] at hx; simp at hx
+      · exact h0
+    have hkd : d < k := by
+      rcases Nat.lt_or_ge d k with hlt' | hge
+      · exact hlt'
+      · have : k - d = 0 := by omega
+        rw [this, Nat.zero_mul, Nat.zero_min] at he; omega
+    have hdF : d = F - R := by rw [← hd]; rw [← hd] at hkd; omega
+    have hcond : ¬ ((d * h.ch + e / h.enc.nbytes : Nat) : Int) ≤ ((F : Int) - (R : Int)) * (h.ch : Int) := by
+      have hFR : (F : Int) - (R : Int) = (d : Int) := by omega
+      have h1 : ((F : Int) - (R : Int)) * (h.ch : Int) = ((d * h.ch : Nat) : Int) := by rw [hFR]; push_cast; rfl
+      rw [h1]; push_cast
+      have : 0 < e / h.enc.nbytes := Nat.pos_of_ne_zero hx
+      omega
+    have hav : ((F : Int) - (R : Int)) * (h.ch : Int) = ((d * h.ch : Nat) : Int) := by
+      have hFR : (F : Int) - (R : Int) = (d : Int) := by omega
+      rw [hFR]; push_cast; rfl
+    rw [if_neg hcond, hav, hdiv, Int.toNat_natCast, List.take_append_of_le_length (by rw [hvD]; exact Nat.le_refl _),
+      List.take_of_length_le (by rw [hvD]; exact Nat.le_refl _), e1, e2, e3, if_neg hx]
+    have hF : (F : Int) = ((R + d : Nat) : Int) := by rw [hdF]; omega
+    rw [hF]
 
 theorem decodeAll_nil (e : Enc) (c : Conv) (ty : Ty) : e.decodeAll c ty [] = [] := by
   unfold Enc.decodeAll groups; rfl
@@ -249,7 +328,7 @@ theorem RwView.read_refines {h : H} {s : Store} {R W F : Nat} {hdr D : List Byte
       o.ret = callCount h fc ((absOf h s).read k).1.length ∧
       (0 < k → o.err = 0 ∧ o.data = h.enc.decodeAll h.conv ty ((absOf h s).read k).1.flatten ++
         List.replicate ((k - ((absOf h s).read k).1.length) * h.ch)
-          (if (absOf h s).rpos < (absOf h s).frames.length then pattern ty else 0)) ∧
+          (if (absOf h s).rpos < (absOf h s).frames.length then readFill h s ty k ((absOf h s).read k).1.length else 0)) ∧
       RwInv h' s' ∧ absOf h' s' = ((absOf h s).read k).2 := by
   rw [v.abs]
   unfold AbsFile.read
@@ -272,9 +351,12 @@ theorem RwView.read_refines {h : H} {s : Store} {R W F : Nat} {hdr D : List Byte
       have hlen : (((groups h.bw D).drop R).take k).length = min k (F - R) := by
         rw [hfr, groups_length' _ v.bw_pos, hgl, Nat.mul_div_cancel _ v.bw_pos]
       have vr : RwView { h with error := 0, rpos := ((R + min k (F - R) : Nat) : Int), lastOp := .r }
-          { bytes := s.bytes, pos := hdr.length + (R + min k (F - R)) * h.bw } (R + min k (F - R)) W F hdr D :=
+          { bytes := s.bytes, pos := hdr.length + (R + min k (F - R)) * h.bw + min ((k - min k (F - R)) * h.bw) (tailLen h s) }
+          (R + min k (F - R)) W F hdr D :=
         v.rebuild _ _ _ W F hdr D rfl rfl rfl rfl rfl v.dataend rfl rfl rfl rfl v.wpos v.frames v.bytes rfl v.dlen
-          (by simp) (fun hc => by simp at hc) (fun _ _ => rfl)
+          (by simp only []; omega) (fun hc => by simp at hc) (fun _ hlt2 => by
+            have : min k (F - R) = k := by omega
+            simp only [this, Nat.sub_self, Nat.zero_mul, Nat.zero_min, Nat.add_zero])
       refine ⟨_, _, _, rfl, by rw [hlen], fun _ => ⟨rfl, ?_⟩, ⟨_, W, F, hdr, D, vr⟩, ?_⟩
       · simp only [hlen, hlt, if_true]
         rw [hfr, groups_join _ v.bw_pos _ _ hgl]
